@@ -207,6 +207,7 @@ fn run_iter<T: Copy, I: Iterator<Item = T> + Clone>(
     v.extend(r(catch(|| size(&it))));
     let mut items = vec![];
     let mut pan = false;
+    let it_for_nth = it.clone();
     let mut cur = it;
     for _ in 0..n {
         let mut c2 = cur.clone();
@@ -225,6 +226,34 @@ fn run_iter<T: Copy, I: Iterator<Item = T> + Clone>(
             Some((Some(x), c3)) => {
                 items.push(item(x) as i128);
                 cur = c3;
+            }
+        }
+    }
+    // Iterator::nth (what skip / step_by use) must agree with repeated next: nth(k) is item k, then the rest follows
+    if !pan {
+        let complete = (items.len() as u64) < n;    // the iteration above ended by itself
+        for k in 0..items.len().min(6) {
+            // (the element after it is asked for only where the loop above asked for it too)
+            let follow = k + 1 < items.len() || complete;
+            let mut c = it_for_nth.clone();
+            let got = catch(move || { let x = c.nth(k); let y = if follow { c.next() } else { None }; (x, y) });
+            match got {
+                Some((x, y)) => {
+                    if x.map(|t| item(t) as i128) != items.get(k).copied() { pan = true; }
+                    if follow && y.map(|t| item(t) as i128) != items.get(k + 1).copied() { pan = true; }
+                }
+                None => { pan = true; }
+            }
+        }
+        if complete {
+            let mut c = it_for_nth.clone();
+            let k = items.len();
+            if !matches!(catch(move || c.nth(k).is_none()), Some(true)) { pan = true; }
+            // skipping past the end (what step_by / skip do at the tail) yields nothing and does not panic,
+            // also when the range ends at the last page of a half or at the last frame
+            for extra in [1usize, 2, 7] {
+                let mut c = it_for_nth.clone();
+                if !matches!(catch(move || c.nth(k + extra).is_none() && c.next().is_none()), Some(true)) { pan = true; }
             }
         }
     }
@@ -305,7 +334,14 @@ fn handler_addr(lo: u64, mid: u64, hi: u64) -> u64 {
 }
 fn pte_addr(e: u64) -> Option<u64> {
     let ent: PageTableEntry = unsafe { core::mem::transmute(e) };
-    catch(|| ent.addr().as_u64())
+    catch(|| {
+        let a = ent.addr().as_u64();
+        // the frame of a present entry is another producer of a physical address: it must be the frame at addr()
+        if let Ok(f) = ent.frame() {
+            if f.start_address().as_u64() != a { return f.start_address().as_u64(); }
+        }
+        a
+    })
 }
 
 fn va_prog_step(cur: u64, op: u64, arg: u64) -> Option<u64> {
@@ -444,8 +480,19 @@ fn run_inner(c: &[u64]) -> Vec<i128> {
         [10, s, e] => steps(Step::steps_between(&va(*s), &va(*e))),
         [11, s, n] => ro(catch(|| step_fwd_all(va(*s), *n as usize).map(|v| v.as_u64()))),
         [12, s, n] => ro(catch(|| step_bwd_all(va(*s), *n as usize).map(|v| v.as_u64()))),
-        [13, a, b] => r(catch(|| (va(*a) + *b).as_u64())),
-        [14, a, b] => r(catch(|| (va(*a) - *b).as_u64())),
+        // the compound operators must do what the plain ones do (value or panic)
+        [13, a, b] => {
+            let r1 = catch(|| (va(*a) + *b).as_u64());
+            let r2 = catch(|| { let mut x = va(*a); x += *b; x.as_u64() });
+            if r1 != r2 { return vec![r2.unwrap_or(0x0bad_0bad_0bad_0bad) as i128]; }
+            r(r1)
+        }
+        [14, a, b] => {
+            let r1 = catch(|| (va(*a) - *b).as_u64());
+            let r2 = catch(|| { let mut x = va(*a); x -= *b; x.as_u64() });
+            if r1 != r2 { return vec![r2.unwrap_or(0x0bad_0bad_0bad_0bad) as i128]; }
+            r(r1)
+        }
         [15, a, b] => r(catch(|| va(*a) - va(*b))),
         [16, a] => r(catch(|| PhysAddr::new(*a).as_u64())),
         [17, a] => o(PhysAddr::try_new(*a).ok().map(|v| v.as_u64())),
